@@ -5,6 +5,16 @@ HERE = os.path.dirname(os.path.abspath(__file__))
 ALL = ["C%02d" % i for i in range(1, 19)]
 
 CHECKS = {
+ "C01": dict(
+   technique="TLA+ value oracle XtData (Expected / TomlReorder) model-checked for its laws with TLC; real translations with independent read-back validated by TLC against Trace_XtData",
+   text="TLC checks the laws of the value oracle on every small document shape; generated documents of the common data model are translated by the real library for all 16 pairs in several spellings, from slices and readers, explicit and detected; the output is decoded by readers independent of xt and TLC requires the recovered tree to equal Expected(input tree) (identity, or TomlReorder, or a refusal) and every spelling and supply mode to give the same bytes.",
+   note="Leaves are compared as canonical payloads (decimal digits, binary64 bit patterns, UTF-8 bytes). Values are generated (boundary classes plus random), not enumerated; two recorded deviations are excused for their pinned classes.",
+   design_ref="DESIGN.md 4.9, 6 (C01)"),
+ "C06": dict(
+   technique="TLA+ rules of canonical-form uniqueness (Trace_XtData!T_Hop over XtData); recorded hop paths validated by TLC",
+   text="Paths of up to 3 translations over the 4 formats are executed on the real library; TLC requires B -> B on xt's own output to reproduce it byte for byte for every document, and inside the common data model every arrival of the same value in format B to be identical (through TOML: equal up to TomlReorder), which contains A -> B -> A = A -> A.",
+   note="No reference implementation is needed for the byte comparisons; tree comparisons through TOML use the independent readers.",
+   design_ref="DESIGN.md 4.9, 6 (C06)"),
  "C17": dict(
    technique="TLA+ model XtChunker of the parser binding's resource protocol model-checked with TLC; lifecycle/read-handler/cut hook events of real YAML runs validated by TLC with the invariants checked at every step",
    text="TLC explores every interleaving of reader outcomes (short reads, errors, over-reporting), parse errors and early drops of the chunker and checks no use after free, free order, event pairing, copy lengths within both buffers, cuts within the capture buffer and no leak at the end; the hook events of real YAML runs (many inputs, read sizes, reader errors, over-reporting readers of every small excess, detection's early drop, panics unwinding through the handler) are validated by TLC against the same model.",
